@@ -8,7 +8,7 @@ From Coq Require Import List NArith Bool Arith.
 From Coq Require Strings.String.
 Import Coq.Strings.String.StringSyntax.
 From Acg Require Import Base.Outcome Base.Str Model.Flow Model.Linear Model.LinearCheck
-  Proofs.LinearSem Proofs.LinearRaw Proofs.LinearCheck Proofs.LinearMain Proofs.LinearPasses.
+  Proofs.LinearSem Proofs.LinearRaw Proofs.LinearCheck Proofs.LinearMain Proofs.LinearPasses Proofs.LinearTargets.
 Import ListNotations.
 Open Scope nat_scope.
 
@@ -24,7 +24,8 @@ Open Scope nat_scope.
         linearize_to_subroutines f = Ok subs ->
         same_traces (fun n => run_lin n subs orc) f orc.
 
-    What is proved for ALL flows and ALL oracles:
+    What is proved for ALL flows and ALL oracles (besides the structural theorems
+    [C26_subroutine_shape], [C26_labels_consecutive], [C26_targets_exist], which are full):
     (1) the raw linearisation ([_linearize_control_flow]) — [C26_linearize_correct_raw_partial];
     (2) the clean-up ([_compress_in_place], [_fix_labels_in_place],
         [_split_in_subroutines], C++ dispatch) under the decidable hypothesis that the
@@ -68,16 +69,15 @@ Theorem C26_labels_consecutive : forall f subs,
 Proof. exact labels_consecutive. Qed.
 Print Assumptions C26_labels_consecutive.
 
-(** Every jump target is a case label.
-    FULL STATEMENT: forall f subs, wf_flow f = true -> linearize_to_subroutines f = Ok subs ->
-      forall s t, In s (concat subs) -> In t (kind_targets (s_kind s)) ->
-      exists pos, find_case subs 0 t = Some pos.
-    Proved under the validator hypothesis. *)
-Theorem C26_targets_exist_partial : forall f subs, validate f subs = true ->
+(** Every jump target is a case label — FULL, for all well-formed flows: every target
+    of a [Jump] / [If] in the returned subroutines is the head label of a subroutine,
+    i.e. the C++ [switch] never reaches [default: throw] through a jump. *)
+Theorem C26_targets_exist : forall f subs, wf_flow f = true ->
+  linearize_to_subroutines f = Ok subs ->
   forall s t, In s (concat subs) -> In t (kind_targets (s_kind s)) ->
   exists pos, find_case subs 0 t = Some pos.
-Proof. exact validated_targets_exist. Qed.
-Print Assumptions C26_targets_exist_partial.
+Proof. exact targets_exist. Qed.
+Print Assumptions C26_targets_exist.
 
 (** [subroutine_shape] — FULL, for all well-formed flows: no assert, precondition or
     postcondition of linear.py fires ([linearize_to_subroutines f] is never a [Crash];
